@@ -161,6 +161,22 @@ impl<'a> SendLastStateProofProcess<'a> {
         return_if_failed!(check_continuous_headers(
             &headers[(reorg_count + sampled_count)..]
         ));
+        // The last header of the response should be the parent of the proved header.
+        if let Some(parent) = headers.last() {
+            let last = last_header.header();
+            if parent.number() >= last.number() || !parent.is_parent_of(last) {
+                let errmsg = format!(
+                    "the last header of the response (number: {}, hash: {:#x}) is not the parent of \
+                    the last header (number: {}, hash: {:#x}, parent: {:#x})",
+                    parent.number(),
+                    parent.hash(),
+                    last.number(),
+                    last.hash(),
+                    last.parent_hash()
+                );
+                return StatusCode::InvalidParentBlock.with_context(errmsg);
+            }
+        }
 
         // Verify MMR proof
         return_if_failed!(verify_mmr_proof(
